@@ -223,7 +223,7 @@ def item(p, depth, ctx):
         alts.append(st.fixed_dictionaries({"k": st.just("dangling"), "doc": p.doc}))
     if p.dups:
         alts = [a if _kind_of(a) in (None, "generic", "block", "parseargs", "dangling", "class") else
-                st.tuples(a, st.sampled_from([False] * 7 + [True])).map(_with_dup) for a in alts]
+                st.tuples(a, st.sampled_from([True] + [False] * (7 if p.dups is True else int(p.dups)))).map(_with_dup) for a in alts]
     if p.weights:
         # alternatives are dict strategies with a fixed "k"; repeat them by weight (0 drops the kind here)
         weighted = []
